@@ -1027,6 +1027,148 @@ func (e *c10Env) wrongShares(v *vCore, scope string) {
 	}
 }
 
+// rejectedBatch submits, to the sealed barrier of the scope, a batch of shares that reaches the
+// threshold but that the share combination cannot digest at all: a share truncated by one byte, a
+// raw 32-byte key where a share belongs, a second share with the x coordinate of one already
+// given (different body), a share of an earlier rekey generation with a colliding x. The batch
+// must be refused and the barrier stay sealed. NO reset of the unseal progress follows: the
+// caller goes on with a full threshold of currently valid shares, which must unseal. It reports
+// the kind of batch submitted ("" when none was).
+func (e *c10Env) rejectedBatch(v *vCore, scope string) string {
+	ks := e.keys(scope)
+	if ks.thr < 2 || len(ks.shares) < ks.thr {
+		return ""
+	}
+	feed := func(share []byte) (bool, error) {
+		if scope == "root" {
+			return v.Core.Unseal(TestKeyCopy(share))
+		}
+		ns := c10NSObj(v.Core)
+		if ns == nil {
+			return false, fmt.Errorf("namespace not found")
+		}
+		ok, err := TestNamespaceUnseal(v.Core, ns, TestKeyCopy(share))
+		return ok && !v.Core.NamespaceSealed(ns), err
+	}
+	sealed := func() bool {
+		if scope == "root" {
+			return v.Core.Sealed()
+		}
+		ns := c10NSObj(v.Core)
+		return ns != nil && v.Core.NamespaceSealed(ns)
+	}
+	good := ks.shares[:ks.thr-1]
+	last := ks.shares[ks.thr-1]
+	kinds := []string{"share-truncated-by-one-byte", "raw-32-byte-key-in-place-of-a-share", "second-share-with-the-same-x-different-body"}
+	// a share of an earlier generation whose x coordinate collides with one of the shares given
+	var colliding []byte
+	for _, gen := range ks.stale {
+		for _, st := range gen {
+			for _, g := range good {
+				if len(st) == len(g) && st[len(st)-1] == g[len(g)-1] && string(st) != string(g) {
+					colliding = st
+				}
+			}
+		}
+	}
+	if colliding != nil {
+		kinds = append(kinds, "old-generation-share-with-a-colliding-x", "old-generation-share-with-a-colliding-x")
+	}
+	kind := kit.Pick(e.rng, kinds)
+	var bad []byte
+	switch kind {
+	case "share-truncated-by-one-byte":
+		bad = append([]byte(nil), last[:len(last)-1]...)
+	case "raw-32-byte-key-in-place-of-a-share":
+		bad = e.rng.Bytes(len(last) - 1)
+	case "second-share-with-the-same-x-different-body":
+		bad = append([]byte(nil), good[0]...)
+		bad[e.rng.Intn(len(bad)-1)] ^= 0x5a
+	default:
+		bad = append([]byte(nil), colliding...)
+	}
+	batch := append(append([][]byte{}, good...), bad)
+	if e.rng.Chance(1, 2) && len(batch) > 1 {
+		batch[0], batch[len(batch)-1] = batch[len(batch)-1], batch[0] // the indigestible one first
+	}
+	var lastErr error
+	for _, sh := range batch {
+		ok, err := feed(sh)
+		if err != nil {
+			lastErr = err
+		}
+		if ok || !sealed() {
+			e.step("rejected-batch", "%s: batch with a %s unsealed", scope, kind)
+			e.viol("wrong-key-unsealed", "%s barrier unsealed with %d valid share(s) and a %s", scope, len(good), kind)
+			return kind
+		}
+	}
+	e.step("rejected-batch", "%s: %d valid share(s) and a %s (threshold %d) -> refused: %v; no reset of the unseal progress", scope, len(good), kind, ks.thr, lastErr)
+	if lastErr == nil {
+		// nothing was refused: the batch is still pending (a duplicate was ignored); clear it
+		if scope == "root" {
+			v.Core.ResetUnsealProcess()
+		} else if ns := c10NSObj(v.Core); ns != nil {
+			v.Core.sealManager.ResetUnsealProcess(ns.UUID)
+		}
+		e.r.Count("observation_indigestible_batch_not_refused_left_pending", 1)
+		return ""
+	}
+	e.r.Count("rejected_batches", 1)
+	e.r.Count("rejected_batches:"+scope, 1)
+	e.r.Count("rejected_batch_kind:"+kind, 1)
+	return kind
+}
+
+// validAfterRejected feeds a full threshold of the currently valid shares one by one, with no
+// reset before or in between.
+func (e *c10Env) validAfterRejected(v *vCore, scope, kind string) bool {
+	ks := e.keys(scope)
+	var errs []string
+	for _, sh := range ks.shares[:ks.thr] {
+		var err error
+		if scope == "root" {
+			_, err = v.Core.Unseal(TestKeyCopy(sh))
+		} else if ns := c10NSObj(v.Core); ns != nil {
+			_, err = TestNamespaceUnseal(v.Core, ns, TestKeyCopy(sh))
+		}
+		if err != nil {
+			errs = append(errs, err.Error())
+		}
+	}
+	open := false
+	if scope == "root" {
+		open = !v.Core.Sealed()
+	} else if ns := c10NSObj(v.Core); ns != nil {
+		open = !v.Core.NamespaceSealed(ns)
+	}
+	e.step("unseal", "%s: a full threshold (%d of %d) of the currently valid shares right after the refused batch, no reset -> unsealed=%v %v", scope, ks.thr, len(ks.shares), open, errs)
+	if !open {
+		// is it the refused batch that stands in the way? after a reset of the unseal progress the same shares must do
+		var ok2 bool
+		var errs2 []string
+		if scope == "root" {
+			v.Core.ResetUnsealProcess()
+			ok2, errs2 = c10UnsealShares(v.Core, ks.shares[:ks.thr])
+		} else {
+			if ns := c10NSObj(v.Core); ns != nil {
+				v.Core.sealManager.ResetUnsealProcess(ns.UUID)
+			}
+			ok2, errs2 = c10UnsealNS(v.Core, ks.shares[:ks.thr])
+		}
+		if !ok2 {
+			e.viol("valid-key-refused", "the %s barrier stays sealed with a full threshold (%d of %d) of its currently valid shares, right after a refused batch (%v) and also after a reset of the unseal progress (%v)", scope, ks.thr, len(ks.shares), errs, errs2)
+			return false
+		}
+		e.step("unseal", "%s: after a reset of the unseal progress the same shares unseal", scope)
+		e.violClass("C10-valid-shares-refused-after-a-rejected-batch", "the %s barrier stays sealed with a full threshold (%d of %d) of its currently valid shares submitted right after a batch that was refused (%d valid share(s) and a %s; the unseal progress was not reset in between): %v; after an explicit reset of the unseal progress the same shares unseal", scope, ks.thr, len(ks.shares), ks.thr-1, kind, errs)
+		return false
+	}
+	e.r.Count("valid_shares_accepted_right_after_a_rejected_batch", 1)
+	e.r.Count("valid_shares_accepted_right_after_a_rejected_batch:"+scope, 1)
+	return true
+}
+
 func (e *c10Env) opSealUnsealRoot() {
 	if err := TestCoreSeal(e.v.Core); err != nil {
 		e.viol("seal-failed", "seal: %v", err)
@@ -1152,6 +1294,13 @@ func (e *c10Env) unsealRoot(v *vCore) {
 		if e.failed {
 			return
 		}
+		if kind := e.rejectedBatch(v, "root"); e.failed {
+			return
+		} else if kind != "" {
+			if !e.validAfterRejected(v, "root", kind) {
+				return
+			}
+		}
 		ok, errs := c10UnsealShares(v.Core, e.root.shares[:e.root.thr])
 		e.step("unseal", "unseal core with %d/%d current shares -> %v", e.root.thr, len(e.root.shares), ok)
 		if !ok {
@@ -1183,6 +1332,13 @@ func (e *c10Env) unsealNSChecked(v *vCore) {
 	e.wrongShares(v, "ns")
 	if e.failed {
 		return
+	}
+	if kind := e.rejectedBatch(v, "ns"); e.failed {
+		return
+	} else if kind != "" {
+		if !e.validAfterRejected(v, "ns", kind) {
+			return
+		}
 	}
 	ok, errs := c10UnsealNS(v.Core, e.ns.shares[:e.ns.thr])
 	e.step("unseal-ns", "unseal namespace with %d/%d current shares -> %v", e.ns.thr, len(e.ns.shares), ok)
@@ -1330,6 +1486,9 @@ func TestVerif_C10_CoreHistories(t *testing.T) {
 	r.Require("restarts", 20/div)
 	r.Require("wrong_share_sets_refused", 200/div)
 	r.Require("wrong_share_kind:stale-shares-of-a-completed-rekey", 20/div)
+	r.Require("rejected_batches:root", 50/div)
+	r.Require("rejected_batches:ns", 70/div)
+	r.Require("valid_shares_accepted_right_after_a_rejected_batch", 120/div)
 	r.Require("sealed_reads_refused", 300/div)
 	r.Require("entries_read_back", 2000/div)
 	r.Require("fresh_write_term_checks_after_rotation", 40/div)
